@@ -25,11 +25,13 @@ VARIABLES l, pre, cur, ev,
           acc,        \* history: per agent, highest valued nomination a controlled agent had to accept: [v, l, r] (v = 0 none)
           acked,      \* history: per agent, highest nomination value whose success response a controlling agent has processed
           iss,        \* history: highest nomination value issued through the API and its pair [v, l, r]
+          nomTids,    \* history: transaction ids of the requests that carried a nomination value
+          nomLost,    \* history: a valued request or the answer to one was dropped in this trace
           nomKind,    \* history: per agent, {<<l, r, v>>} = value (0 = plain USE-CANDIDATE) of the last nominating request received on pair (l, r)
           ledger,     \* history: per agent, the harness's own record of outstanding requests {<<tid, dst, at, gen>>}
           pled,       \* ledger before the last step
           base        \* history: per agent, [key, tally, cnt] = selected pair (l,r), harness tallies and that pair's counters when it became selected
-vars == <<l, pre, cur, ev, idmap, answered, ucAnswered, nomRx, chk, ltc, acc, acked, iss, base, ledger, pled, nomKind>>
+vars == <<l, pre, cur, ev, idmap, answered, ucAnswered, nomRx, chk, ltc, acc, acked, iss, base, ledger, pled, nomKind, nomTids, nomLost>>
 
 E0 == [a \in Agents |-> {}]
 CountIn(s, x) == Cardinality({k \in 1..Len(s) : s[k] = x})
@@ -50,7 +52,7 @@ Init == /\ l = 2 /\ pre = Tr[1].post /\ cur = Tr[1].post /\ ev = Tr[1]
         /\ answered = E0 /\ ucAnswered = E0 /\ nomRx = E0
         /\ chk = [a \in Agents |-> 0 - 1] /\ ltc = [a \in Agents |-> "Unknown"]
         /\ acc = [a \in Agents |-> NoNom] /\ acked = [a \in Agents |-> 0] /\ iss = NoNom
-        /\ ledger = E0 /\ pled = E0 /\ nomKind = E0
+        /\ ledger = E0 /\ pled = E0 /\ nomKind = E0 /\ nomTids = {} /\ nomLost = FALSE
         /\ base = [a \in Agents |-> [key |-> <<>>, tally |-> <<0, 0, 0, 0>>, cnt |-> <<0, 0, 0, 0>>]]
 Step == /\ l <= Len(Tr) /\ l' = l + 1 /\ pre' = cur /\ cur' = Tr[l].post /\ ev' = Tr[l]
         /\ LET e == Tr[l]  reset == e.ev = "Reset" IN
@@ -92,6 +94,9 @@ Step == /\ l <= Len(Tr) /\ l' = l + 1 /\ pre' = cur /\ cur' = Tr[l].post /\ ev' 
                          /\ e.m.rolea # cur[a].role
                       THEN {x \in nomKind[a] : ~(x[1] = Unwire(e.m.dst) /\ x[2] = e.m.src)} \cup {<<Unwire(e.m.dst), e.m.src, e.m.nom>>}
                  ELSE nomKind[a]]
+           /\ nomTids' = IF reset THEN {} ELSE nomTids \cup {x.tid : x \in {y \in NewMsgs(e, cur) : y.kind = "req" /\ y.nom # 0}}
+           /\ nomLost' = IF reset THEN FALSE
+                         ELSE nomLost \/ (e.ev = "Drop" /\ ((e.m.kind = "req" /\ e.m.nom # 0) \/ (e.m.kind = "succ" /\ e.m.tid \in nomTids)))
            /\ pled' = ledger
            /\ ledger' = [a \in Agents |->
                  IF reset \/ (e.ev = "Restart" /\ e.ag = a) \/ (e.post[a].conn = "Failed" /\ cur[a].conn # "Failed") THEN {}
@@ -298,7 +303,7 @@ C20_ControllingKeepsNewest ==
   (IsDeliver /\ ev.m.kind = "succ" /\ SocketOpen /\ RespAuthOK /\ Matched /\ pre[Rcv].role = "controlling") =>
      \A x \in Rng(pre[Rcv].pend) : (x.tid = ev.m.tid /\ x.dst = ev.m.src /\ x.nom # 0 /\ x.nom < acked[Rcv]) => cur[Rcv].sel = pre[Rcv].sel
 C20_QuiescentAgreement ==
-  (ev.ev = "DrainEnd" /\ ev.lossUsed = 0 /\ cur["A"].sel # 0 /\ cur["B"].sel # 0 /\ InSync(cur) /\ iss.v # 0 /\ cur["A"].role = "controlling") =>
+  (ev.ev = "DrainEnd" /\ ~nomLost /\ cur["A"].sel # 0 /\ cur["B"].sel # 0 /\ InSync(cur) /\ iss.v # 0 /\ cur["A"].role = "controlling") =>
      (MirrorIn(cur) /\ SelKey(cur, "A") = <<iss.l, iss.r>>)
 C20_ValueOnWire ==
   (ev.ev = "Renominate" /\ ev.err = "") =>
